@@ -18,7 +18,7 @@ id=$(echo "$ID" | tr 'A-Z' 'a-z')
 
 # plain overlay: add export shims to the packages that have unexported seams
 gen_plain_overlay() {
-  cat > "$BUILD/overlay-plain.json" <<JSON
+  cat > "$BUILD/overlay-plain-$id.json" <<JSON
 {"Replace": {
  "$REPO/teamserver/pkg/handlers/export_verif.go": "$HERE/mc/overlay/handlers_export.go",
  "$REPO/teamserver/cmd/server/export_verif.go": "$HERE/mc/overlay/server_export.go",
@@ -38,13 +38,13 @@ if [ "$REPO" != "/repo" ]; then
   MODFLAG="-modfile=$BUILD/alt.mod"
 fi
 gen_plain_overlay
-OVERLAY="$BUILD/overlay-plain.json"
+OVERLAY="$BUILD/overlay-plain-$id.json"
 BIN="$BUILD/$id"
 if [ -f "$HERE/mc/cmd/$id/SCHED" ]; then
   # scheduler build: instrumented copies of the concurrency-relevant packages
   (go build $MODFLAG -o "$BUILD/instr" ./cmd/instr) || { echo "BUILD-ERROR instr"; exit 2; }
-  "$BUILD/instr" -repo "$REPO" -out "$BUILD/sched-src" -overlay "$BUILD/overlay-sched.json" -plain "$BUILD/overlay-plain.json" || { echo "BUILD-ERROR instr run"; exit 2; }
-  OVERLAY="$BUILD/overlay-sched.json"
+  "$BUILD/instr" -repo "$REPO" -out "$BUILD/sched-src" -overlay "$BUILD/overlay-sched-$id.json" -plain "$BUILD/overlay-plain-$id.json" || { echo "BUILD-ERROR instr run"; exit 2; }
+  OVERLAY="$BUILD/overlay-sched-$id.json"
 fi
 if ! go build $MODFLAG -overlay "$OVERLAY" -o "$BIN" "./cmd/$id" 2> "$BUILD/$id.build.log"; then
   cat "$BUILD/$id.build.log" >&2
